@@ -51,6 +51,8 @@ pub fn to_miette_report_with_formatter(
     file: &str,
     formatter: &dyn MessageFormatter,
 ) -> miette::Report {
+    // Locations refer to the text without its byte-order mark (the parser never sees it).
+    let source = source.strip_prefix('\u{feff}').unwrap_or(source);
     let sanitized_source = sanitize_terminal_snippet_preserve_len(source.to_owned());
     let src = Arc::new(NamedSource::new(file, sanitized_source));
     let diag = build_diagnostic(err.without_snippet(), src, formatter);
